@@ -36,9 +36,23 @@ pub fn journal(ctx: &GCtx, prop: &str, rec: &RefCell<Recorder>, case: &serde_jso
         (r.evaluations, r.distinct_nontrivial())
     };
     let body = serde_json::json!({"index": ctx.counter.get(), "evaluations": ev, "distinct_nontrivial": nt, "case": case});
-    if let Ok(mut f) = std::fs::File::create(&path) {
-        let _ = f.write_all(serde_json::to_string(&body).unwrap().as_bytes());
+    // one open handle per journal: rewriting in place is several times cheaper than re-creating
+    thread_local! {
+        static OPEN: RefCell<Option<(std::path::PathBuf, std::fs::File)>> = RefCell::new(None);
     }
+    OPEN.with(|o| {
+        use std::io::Seek;
+        let mut o = o.borrow_mut();
+        if o.as_ref().map(|(p, _)| p != &path).unwrap_or(true) {
+            *o = std::fs::File::create(&path).ok().map(|f| (path.clone(), f));
+        }
+        if let Some((_, f)) = o.as_mut() {
+            let text = serde_json::to_string(&body).unwrap();
+            let _ = f.seek(std::io::SeekFrom::Start(0));
+            let _ = f.write_all(text.as_bytes());
+            let _ = f.set_len(text.len() as u64);
+        }
+    });
 }
 
 impl GCtx {
